@@ -38,7 +38,7 @@ from urllib.parse import urlsplit
 from harness.common import exc_token, tok_str
 from vk.core import Case, Ctx
 
-GEN_MODULES: List[str] = ["C14Types"]
+GEN_MODULES: List[str] = ["C14Types", "C08Types"]
 MANIFEST = {
     "design_ref": "§5 C14",
     "text": ("Lean theorems over the executable tree-level model of server.py's HTTP side composed with the client "
@@ -49,14 +49,15 @@ MANIFEST = {
              "object reaches the handler with the same typed values and returns the handler's typed results), "
              "handler_error_propagates (same UPnP code), bad_request_never_unhandled / invalid_request_rejected / "
              "invalid_request_judged (for every request tree and header: SOAP fault or 4xx, never an escaping exception), "
-             "gen_types_ok over the generated type table. The model is tied to the code by that table (const.py) and a "
+             "client_sees_definition_c05 (C05's factory model with C08's coercers for all 26 types, applied to the served SCPD, "
+             "equals C05's mirror of the description it denotes), gen_types_ok over the generated type table. The model is tied to the code by that table (const.py) and a "
              "differential check of served documents, client model, handler inputs, results and statuses; the Lean judge "
              "is evaluated on the implementation's observations; the mocked-request path is cross-checked against a real "
              "HTTP server on loopback."),
     "note": ("Trusted: Lean kernel + standard axioms; XML text<->tree (ElementTree/expat, escaping), aiohttp routing and "
              "request plumbing, voluptuous, Python int()/float()/datetime are outside the model (sampled by the "
              "correspondence runs; float/date/time codecs enter the model as harness-supplied facts and a round-trip "
-             "hypothesis). Icons, allowedValueRange/step, empty allowed values and ranges / allowed lists on date/time types are not generated."),
+             "hypothesis). Icons, allowedValueRange/step and ranges / allowed lists on date/time types are not generated."),
     "technique": "Lean 4 proof (structural induction over definitions, argument lists and request trees) + generated table + model/implementation correspondence",
 }
 RULE = ("generated server definitions (1..3 services over a root and up to 2 embedded devices, 0..6 variables of all 26 "
@@ -71,7 +72,7 @@ ASSUMPTIONS = [
     "names (variables, actions, arguments) are XML names without whitespace; service types contain no '#' or '\"'; names are unique per service (Python dict keys)",
     "float, date and time codecs are not modelled: coerce_python on the texts that occur is supplied to the model by the harness (fact lines); their round trip is a hypothesis of call_roundtrip",
     "typed values are of the mapped Python type (a bool given for an integer argument is generated and is the integer 1/0; no datetime for date); floats are finite, datetimes/times have whole seconds",
-    "allowed lists hold non-empty texts; bounds are non-empty and parse; date/time typed variables carry defaults but no range / allowed list",
+    "allowed lists of non-string types hold non-empty texts (string types may allow the empty string); bounds are non-empty and parse; date/time typed variables carry defaults but no range / allowed list",
     "handlers keep their contract: results are out-arguments with values valid for the related variable, or UpnpActionError",
     "device icons, allowedValueRange step and max_rate are not part of the compared model",
 ]
@@ -792,7 +793,9 @@ def g_var(rng, name: str) -> Dict[str, Any]:
             v["default"] = g_float_text(rng, rng.choice(pool))
     elif dtype in STR_TYPES:
         if c < 4:
-            v["allowed"] = [x for x in (g_string(rng) or "v" for _ in range(rng.randrange(1, 5)))]
+            # the empty string may be allowed (served as <allowedValue/>, read back as "" for string types)
+            v["allowed"] = [x for x in ((g_string(rng) if rng.random() < 0.9 else "") or rng.choice(["v", "", "v"])
+                                        for _ in range(rng.randrange(1, 5)))]
         if rng.random() < 0.4:
             v["default"] = rng.choice(v["allowed"]) if "allowed" in v else g_string(rng)
     elif dtype == "boolean":
@@ -836,6 +839,13 @@ def g_defn(rng, small: bool = False) -> Dict[str, Any]:
             for k in range(rng.randrange(0, 3 if small else 5)):
                 ins = [[g_name(rng, "In", j), rng.choice(vars_)["name"]] for j in range(rng.randrange(0, 5))]
                 outs = [[g_name(rng, "Out", j), rng.choice(vars_)["name"]] for j in range(rng.randrange(0, 5))]
+                # an out-argument may carry the NAME of an in-argument (e.g. `Volume` in and out, possibly bound
+                # to different variables): `UpnpAction.argument(name, direction)` tells them apart
+                if ins and outs and rng.random() < 0.35:
+                    for _ in range(rng.randrange(1, 3)):
+                        name = rng.choice(ins)[0]
+                        if all(o[0] != name for o in outs):  # names stay distinct per direction
+                            outs[rng.randrange(len(outs))][0] = name
                 acts.append({"name": g_name(rng, "Act", k), "in": ins, "out": outs})
         tname = rng.choice(["Svc", "AVTransport", "X_é", "S-T.x"])
         svcs.append({"type": f"urn:schemas-upnp-org:service:{tname}{i}:1", "id": f"urn:upnp-org:serviceId:{tname}{i}",
@@ -1147,6 +1157,22 @@ CORPUS = [
               "dev": _dev([0], [_dev([1], [_dev([2], k=2)], k=1)])},
      "ops": [{"kind": "call", "svc": 1, "act": "Get", "args": {}, "ret": {"V": "x<y>&amp;\U0001F600"}}]},
 ]
+
+
+_S_SAME = _svc(
+    [{"name": "Vol", "dtype": "ui2", "min": "0", "max": "100"}, {"name": "Txt", "dtype": "string"}],
+    [{"name": "SetVolume", "in": [["Volume", "Vol"], ["Channel", "Txt"]], "out": [["Volume", "Txt"], ["Channel", "Vol"]]},
+     {"name": "Echo", "in": [["Value", "Txt"]], "out": [["Other", "Vol"], ["Value", "Txt"]]}])
+CORPUS.append(
+    # one name used for an in- and an out-argument (gap found by the seeded regression batch 2: arguments looked up
+    # by name only): last-wins breaks the server's request parsing, first-wins the client's response parsing
+    {"defn": {"svcs": [_S_SAME], "dev": _dev([0])}, "ops": [
+        {"kind": "call", "svc": 0, "act": "SetVolume", "args": {"Volume": 7, "Channel": "L<&>"}, "ret": {"Volume": "seven", "Channel": 7}},
+        {"kind": "call", "svc": 0, "act": "Echo", "args": {"Value": "x"}, "ret": {"Value": "y", "Other": 100}},
+        {"kind": "call", "svc": 0, "act": "Echo", "args": {"Value": "x"}, "err": 701},
+        {"kind": "raw", "svc": 0, "act": "SetVolume", "class": "valid", "soapaction": '"urn:schemas-upnp-org:service:S0:1#SetVolume"',
+         "ret": {"Volume": "v"}, "body": env_tree(_S_SAME["type"], "SetVolume", [("Volume", "100"), ("Channel", "")])},
+    ]})
 
 
 def signature(case: Case, verdict) -> str:
